@@ -541,7 +541,10 @@ impl ConvexPolyhedron {
                     normal += *self.faces[*face as usize].normal
                 }
 
-                Some(Unit::new_normalize(normal))
+                // A point that is not on the contour of any face (e.g. a point of the
+                // mesh lying inside a face made of several coplanar triangles) has no
+                // adjacent face: there is no normal to return (instead of a NaN vector).
+                Unit::try_new(normal, crate::math::DEFAULT_EPSILON)
             }
             FeatureId::Unknown => None,
         }
